@@ -340,6 +340,8 @@ func Vars(d gen.DataSpec, p *Probes) jet.VarMap {
 	vm.Set("plain", &indexlessRanger{items: []string{"pa", "pb"}})
 	vm.Set("plain0", &indexlessRanger{})
 	vm.Set("gofn", func(s string, n int) string { return s })
+	vm.Set("strfn", func(x fmt.Stringer) string { return "stringer" })
+	vm.Set("nofn", func() string { return "nofn" })
 	vm.Set("rnd", probeRenderer{p})
 	return vm
 }
